@@ -565,7 +565,7 @@ delfunc(struct func *f)
 	for (i = 0; i < f->gotos.cap; ++i) {
 		g = f->gotos.vals[i];
 		if (f->gotos.keys[i].str && !g->defined)
-			error(&tok.loc, "label '%s' used but not defined", (const char *)f->gotos.keys[i].str);
+			error(&g->loc, "label '%s' used but not defined", (const char *)f->gotos.keys[i].str);
 	}
 	while (b = f->start) {
 		f->start = b->next;
@@ -661,6 +661,7 @@ funcgoto(struct func *f, char *name)
 		g = xmalloc(sizeof(*g));
 		g->label = mkblock(name);
 		g->defined = false;
+		g->loc = tok.loc;
 		*entry = g;
 	}
 
